@@ -69,9 +69,9 @@ def build_canon(root):
       return ("callable", l2.sym_name(fn), tuple(sorted(items, key=repr)))
     if isinstance(x, type) or (callable(x) and hasattr(x, "__qualname__") and not hasattr(x, "view")):
       return ("callable", l2.sym_name(x), ())
-    if not daglish.is_memoizable(x):
+    if not common.own_memoizable(x):
       return ("leaf", type(x).__name__, repr(x))
-    if daglish.is_internable(x):
+    if common.own_internable(x):
       return ("tuple",) + tuple(go(v) for v in x)
     if id(x) in seen:
       return ("ref", seen[id(x)])
